@@ -49,8 +49,9 @@ def queries(tier, prop='C03'):
                 for e in ents:
                     base = e[3:]
                     if fl == 1 and (base in NEED_COPY or e == 'ss_emplace'): continue   # static_set::emplace requires a copy-constructible key
-                    q = dict(entry='q_' + e, cfg={'FLAV': fl, 'CAP': cap, 'NA': na, 'NB': nb, 'LG_SLOTS': 2 * cap + 2}, unwind=2 * cap + 4, unwindset=uw(cap * 8 + 18, cap),
+                    q = dict(entry='q_' + e, cfg={'FLAV': fl, 'CAP': cap, 'NA': na, 'NB': nb, 'LG_SLOTS': 2 * cap + 2}, unwind=cap + 3, unwindset=uw(cap * 8 + 18, cap),
                              budget=120 if tier == 'quick' else 900, ub=ub, nofunc=ub)
                     if base in KF_WHOLE and KF_WHOLE[base][1](na): q['kf_only'] = KF_WHOLE[base][0]
                     out.append(q)
+    for q_ in out: q_['lazy_trace'] = True   # verdict first, counterexample trace only when an obligation fails (engine/runner.py)
     return out
